@@ -83,6 +83,20 @@ def eval_case(st):
             fails.append(("paste:maxlen", f"maxlen of the result {out.maxlen}, requested {st['lim']}"))
         if (_view(pb), _view(pf)) != before:
             fails.append(("paste:inputs", "paste_paths changed one of its arguments"))
+        # without an explicit limit the larger limit of the two segments counts, and the other one when a segment has none
+        # ("In case one is None, the other will be picked"): same result as with that limit given explicitly
+        for who in ("back", "forw"):
+            qb, qf = _mk(a, maxlen=st["lim"]), _mk(b, maxlen=st["lim"])
+            (qb if who == "back" else qf).maxlen = None
+            try:
+                out2 = paste_paths(qb, qf, overlap=bool(st["flag"]))
+            except Exception as exc:  # noqa: BLE001
+                fails.append((f"paste:segment-without-limit:raise:{type(exc).__name__}", f"paste_paths raised {type(exc).__name__} ({exc}) when the {who}ward segment has no "
+                                                                                       f"length limit and the other has {st['lim']}"))
+                continue
+            msg = _same(_view(out2), res["out"])
+            if msg:
+                fails.append(("paste:segment-without-limit", msg))
     elif kind == "reverse":
         p = _mk(a)
         before = _view(p)
